@@ -470,6 +470,7 @@ impl<T: Elem + Clone + Ord + Default> Hist<T> {
         }
         if out != StepOut::Failed {
             ctx.seen("transitions", (before_size, opn, self.g.size(), out == StepOut::Accepted));
+            ctx.detail(|| format!("{} -> {:?}, size now {:?}", what, out, self.g.size()));
         }
         out
     }
